@@ -138,6 +138,28 @@ def tlc_lines(out_path, prefix):
     return res
 
 
+TRACE_CFG = "SPECIFICATION Spec\nPOSTCONDITION AllConsumed\nCHECK_DEADLOCK FALSE\n"
+
+
+def trace_validate(module, path, name, timeout=3600, xmx="6g"):
+    """Validate an ndjson trace with spec/<module>.tla.  Returns (events, bad) where bad is
+    the list of (1-based line, event) that the specification rejects.  A trace that is not
+    consumed to its end is a tool error (the trace spec itself is stuck)."""
+    r = tlc(module, TRACE_CFG, name, workers=1, deque=True, xss=True, xmx=xmx,
+            env_extra={"TRACE": path}, timeout=timeout)
+    bad = []
+    with open(r["out_path"], errors="replace") as f:
+        for line in f:
+            if line.startswith('"MISMATCH '):
+                bad.append(int(json.loads(line).split()[1]))
+            if line.startswith('"UNCONSUMED'):
+                raise ToolError("trace %s not consumed: %s" % (path, line))
+    events = [json.loads(x) for x in open(path)]
+    if r["distinct"] != len(events) + 1:
+        raise ToolError("trace %s: %d events but %d states" % (path, len(events), r["distinct"]))
+    return events, [(i, events[i - 1]) for i in bad], r
+
+
 # ------------------------------------------------------------------------- harness
 def zv(args, timeout=7200, stdin=None):
     """Run the harness; it prints one JSON report on stdout."""
